@@ -20,16 +20,104 @@ func stripNot(v ssa.Value) (ssa.Value, bool) {
 	}
 }
 
-var corrCache = map[*ssa.Function]map[ssa.Value]int{}
+type corrInfo struct {
+	idx    map[ssa.Value]int
+	resets map[*ssa.BasicBlock][]int
+}
 
-// corrConds returns the condition values (negations stripped) that control
-// two or more Ifs of f, indexed densely (at most 16 are tracked).
-func corrConds(f *ssa.Function) map[ssa.Value]int {
-	if m, ok := corrCache[f]; ok {
-		return m
+var corrCache = map[*ssa.Function]*corrInfo{}
+
+// storedFields: fields written anywhere in f (loads of those are not treated
+// as equal across program points).
+func fieldsStoredIn(f *ssa.Function) map[string]bool {
+	out := map[string]bool{}
+	eachInstr(f, func(in ssa.Instruction) {
+		if st, ok := in.(*ssa.Store); ok {
+			if fa, ok := st.Addr.(*ssa.FieldAddr); ok {
+				out[fieldAddrName(fa)] = true
+			}
+		}
+	})
+	return out
+}
+
+// mentionsStoredField: the expression loads a field that f also stores.
+func mentionsStored(v ssa.Value, stored map[string]bool, d int) bool {
+	if v == nil || d > 6 {
+		return false
 	}
-	count := map[ssa.Value]int{}
-	var order []ssa.Value
+	switch x := v.(type) {
+	case *ssa.UnOp:
+		if fa, ok := x.X.(*ssa.FieldAddr); ok && x.Op == token.MUL {
+			if stored[fieldAddrName(fa)] {
+				return true
+			}
+			return mentionsStored(fa.X, stored, d+1)
+		}
+		if _, ok := x.X.(*ssa.Alloc); ok && x.Op == token.MUL {
+			return true // mutable local cell
+		}
+		return mentionsStored(x.X, stored, d+1)
+	case *ssa.BinOp:
+		return mentionsStored(x.X, stored, d+1) || mentionsStored(x.Y, stored, d+1)
+	case *ssa.Call:
+		if _, ok := x.Call.Value.(*ssa.Builtin); ok {
+			for _, a := range x.Call.Args {
+				if mentionsStored(a, stored, d+1) {
+					return true
+				}
+			}
+			return false
+		}
+		return false // distinct calls are never merged anyway (SSA identity only)
+	case *ssa.IndexAddr:
+		return mentionsStored(x.X, stored, d+1) || mentionsStored(x.Index, stored, d+1)
+	case *ssa.Convert:
+		return mentionsStored(x.X, stored, d+1)
+	}
+	return false
+}
+
+func phisIn(v ssa.Value, out map[*ssa.Phi]bool, d int) {
+	if v == nil || d > 6 {
+		return
+	}
+	switch x := v.(type) {
+	case *ssa.Phi:
+		out[x] = true
+	case *ssa.UnOp:
+		phisIn(x.X, out, d+1)
+	case *ssa.BinOp:
+		phisIn(x.X, out, d+1)
+		phisIn(x.Y, out, d+1)
+	case *ssa.Call:
+		for _, a := range x.Call.Args {
+			phisIn(a, out, d+1)
+		}
+	case *ssa.IndexAddr:
+		phisIn(x.X, out, d+1)
+		phisIn(x.Index, out, d+1)
+	case *ssa.FieldAddr:
+		phisIn(x.X, out, d+1)
+	case *ssa.Convert:
+		phisIn(x.X, out, d+1)
+	case *ssa.Extract:
+		phisIn(x.Tuple, out, d+1)
+	}
+}
+
+// corrOf computes the correlated conditions of f: condition values (negations
+// stripped) that control two or more Ifs. Two textually separate but
+// structurally identical pure conditions (same operator over the same SSA
+// operands / unstored field loads / len of those) count as the same condition.
+func corrOf(f *ssa.Function) *corrInfo {
+	if ci, ok := corrCache[f]; ok {
+		return ci
+	}
+	stored := fieldsStoredIn(f)
+	var reps []ssa.Value
+	count := []int{}
+	member := map[ssa.Value]int{}
 	for _, b := range f.Blocks {
 		if len(b.Instrs) == 0 {
 			continue
@@ -42,17 +130,56 @@ func corrConds(f *ssa.Function) map[ssa.Value]int {
 		if _, isConst := v.(*ssa.Const); isConst {
 			continue
 		}
-		if count[v] == 0 {
-			order = append(order, v)
+		if _, seen := member[v]; seen {
+			count[member[v]]++
+			continue
 		}
-		count[v]++
+		g := -1
+		if !mentionsStored(v, stored, 0) {
+			for i, r := range reps {
+				if r != v && sameValue(r, v) && !mentionsStored(r, stored, 0) {
+					g = i
+					break
+				}
+			}
+		}
+		if g < 0 {
+			reps = append(reps, v)
+			count = append(count, 0)
+			g = len(reps) - 1
+		}
+		member[v] = g
+		count[g]++
 	}
-	m := map[ssa.Value]int{}
-	for _, v := range order {
-		if count[v] >= 2 && len(m) < 16 {
-			m[v] = len(m)
+	ci := &corrInfo{idx: map[ssa.Value]int{}, resets: map[*ssa.BasicBlock][]int{}}
+	dense := map[int]int{}
+	for v, g := range member {
+		if count[g] < 2 {
+			continue
+		}
+		d, ok := dense[g]
+		if !ok {
+			if len(dense) >= 16 {
+				continue
+			}
+			d = len(dense)
+			dense[g] = d
+		}
+		ci.idx[v] = d
+		// knowledge dies where an input is redefined: the blocks of the phis the
+		// condition mentions, and for a condition that is itself an instruction,
+		// a back edge into its own block is covered by the phi rule (a loop-variant
+		// condition necessarily depends on a phi or on memory, which is excluded).
+		ph := map[*ssa.Phi]bool{}
+		phisIn(v, ph, 0)
+		for p := range ph {
+			ci.resets[p.Block()] = append(ci.resets[p.Block()], d)
 		}
 	}
-	corrCache[f] = m
-	return m
+	corrCache[f] = ci
+	return ci
 }
+
+func corrConds(f *ssa.Function) map[ssa.Value]int { return corrOf(f).idx }
+
+func corrResets(f *ssa.Function) map[*ssa.BasicBlock][]int { return corrOf(f).resets }
